@@ -390,6 +390,10 @@ def check(ctx):
     ctx.rule("R7", "every incumbent move leaves the re-centring request (reset_gp) set when the step returns", floor=2)
     _recentre_rule(ctx, prog, R)
 
+    # ------------------------------------------------------------------ R8
+    ctx.rule("R8", "the surrogate a step works with is selected around the incumbent; a temporary surrogate around the point it is evaluated at", floor=3)
+    _centre_rule(ctx, prog, R)
+
     ctx.assume("gpyreg's s2 is a noise variance (read in the installed gpyreg sources)")
     ctx.assume("np.argsort sorts ascending")
 
@@ -495,6 +499,66 @@ def _rebound_returns(prog, R, fn):
                 ok.add(nm)
         out = ok if out is None else out & ok
     return out or set()
+
+
+def _centre_rule(ctx, prog, R):
+    """``g, flag = local_gp_fitting(g0, centre, ...)``: when the result replaces the surrogate the step was handed (its gp
+    parameter - the GP that scores the search candidates and the poll points), the centre is the incumbent slot self.u; when
+    it is a temporary copy (prediction at a new point, re-estimation of a recorded iterate), the centre is the very point at
+    which that temporary surrogate is then asked to predict."""
+    from .common import deref_canon as _dcc
+
+    lfit = prog.try_function("local_gp_fitting")
+    if lfit is None:
+        ctx.undecided("no function named local_gp_fitting")
+        return
+    cpar = [p for p in lfit.params][1] if len(lfit.params) > 1 else None
+    for fn in R.bads.methods.values():
+        for c, tg in prog.calls_in(fn):
+            if lfit not in tg or prog.function_of(c) is not fn:
+                continue
+            b = bind_args(lfit, c)
+            centre = b.get(cpar)
+            st = prog.parent(c)
+            tgt = st.targets[0] if isinstance(st, ast.Assign) and len(st.targets) == 1 else None
+            tname = tgt.elts[0].id if isinstance(tgt, ast.Tuple) and tgt.elts and isinstance(tgt.elts[0], ast.Name) else (tgt.id if isinstance(tgt, ast.Name) else None)
+            if centre is None or tname is None:
+                ctx.undecided(f"call of local_gp_fitting in {fn.short} is not of the form g, flag = local_gp_fitting(g0, centre, ..)")
+                continue
+            cc = _dcc(prog, fn, centre)
+            # names the result is copied to (an inlined helper hands it back through a temporary)
+            al = {tname}
+            grew = True
+            while grew:
+                grew = False
+                for t_, v_, s_, k_ in iter_stores(fn.node):
+                    if isinstance(t_, ast.Name) and isinstance(v_, ast.Name) and v_.id in al and t_.id not in al and k_ == "assign":
+                        al.add(t_.id)
+                        grew = True
+            moved_to = False
+            if al & set(fn.params) and cc != "self.u":
+                # ``gp = new_gp`` after the incumbent was moved to the very point new_gp was selected around
+                cfg_ = cfg_of(fn)
+                for t_, v_, s_, k_ in iter_stores(fn.node):
+                    if isinstance(t_, ast.Name) and t_.id in fn.params and isinstance(v_, ast.Name) and v_.id in al:
+                        sn_ = cfg_.node_of(s_)
+                        for c2, tg2 in prog.calls_in(fn):
+                            if R.incumbent_update in tg2 and c2.args and canon(c2.args[0]) == canon(centre):
+                                cn_ = cfg_.node_of(c2)
+                                if sn_ is not None and cn_ is not None and cfg_.dominates(cn_.id, sn_.id):
+                                    moved_to = True
+            if moved_to:
+                ctx.ok(fn, c, f"{fn.short}: surrogate selected around {canon(centre)} replaces the working one only after the incumbent moved there")
+            elif al & set(fn.params):
+                ctx.check(cc == "self.u", fn, c, f"{fn.short}: working surrogate re-selected around self.u",
+                          f"the surrogate that {fn.short} goes on working with is selected around '{cc}', not around the incumbent self.u: the training set is no longer the points nearest to the incumbent",
+                          construct=f"local fit of {tname} centred at {cc[:50]}")
+            else:
+                preds = [canon(p_.args[0]) for p_ in ast.walk(fn.node) if isinstance(p_, ast.Call) and isinstance(p_.func, ast.Attribute) and p_.func.attr == "predict"
+                         and isinstance(p_.func.value, ast.Name) and p_.func.value.id in al and p_.args]
+                okp = any(canon(centre) in x or cc in x for x in preds)
+                ctx.check(okp, fn, c, f"{fn.short}: temporary surrogate {tname} centred where it predicts ({canon(centre)})",
+                          f"the temporary surrogate {tname} is selected around '{cc}' but asked to predict elsewhere ({preds[:2]})", construct=f"temporary fit {tname} centre {cc[:40]}")
 
 
 def _recentre_rule(ctx, prog, R):
